@@ -32,6 +32,7 @@ THE SOFTWARE.
  */
 
 #include <vector>
+#include <algorithm>
 #include <string>
 #include <fstream>
 
@@ -99,6 +100,11 @@ void read_crs(
     Ptr nnz;
     f.seekg(ptr_beg + n * sizeof(Ptr));
     precondition(read(f, nnz), "File I/O error");
+
+    precondition(
+            0 <= static_cast<ptrdiff_t>(ptr.front()) && ptr.back() <= nnz &&
+            std::is_sorted(ptr.begin(), ptr.end()),
+            "File format error: invalid row pointers");
 
     SizeT nnz_beg = ptr.front();
     if (nnz_beg) for(auto &p : ptr) p -= nnz_beg;
